@@ -305,7 +305,11 @@ class InconMachine(StoreMachine):
     def read(self, name, cfg):
         nv = cfg['nvar'] if (cfg['nvar'] is not None and cfg['nvar'] > 4) or cfg.get('tell') \
             else None
-        return self.t2.t2incon(self.path(name + '.incon'), num_variables=nv)
+        # check_blocknames is a documented reader option; all generated names are valid, so it
+        # must make no difference (the choice is made per read from the run's aux stream)
+        cb = self.ctx.aux_rng.random() < 0.7
+        self.ctx.probes['read_check_blocknames_%s' % cb] += 1
+        return self.t2.t2incon(self.path(name + '.incon'), num_variables=nv, check_blocknames=cb)
 
     def compare(self, want, got, cfg, what):
         def bad(msg, sub):
